@@ -237,4 +237,57 @@ theorem textbook_step_nonneg (lower up : SLayer ℝ) (g s : ℝ)
     linarith
   · positivity
 
+/-- a layer whose coefficients are physical: transmissivity and reflectivities in [0,1], budgets `r + τ ≤ 1`, `T ≥ 0` -/
+structure Good (ly : SLayer ℝ) : Prop where
+  t0 : 0 ≤ ly.t
+  t1 : ly.t ≤ 1
+  T0 : 0 ≤ ly.temp
+  r0 : 0 ≤ ly.rTop
+  r1 : ly.rTop < 1
+  u0 : 0 ≤ ly.tauUp
+  ru : ly.rTop + ly.tauUp ≤ 1
+  b0 : 0 ≤ ly.rBot
+  d0 : 0 ≤ ly.tauDn
+  bd : ly.rBot + ly.tauDn ≤ 1
+
+theorem bottomOf_nonneg (tsub : ℝ) (hts : 0 ≤ tsub) (ls : List (SLayer ℝ)) (hne : ls ≠ []) (hg : ∀ ly ∈ ls, Good ly) :
+    0 ≤ (bottomOf tsub ls).1 ∧ (bottomOf tsub ls).1 ≤ 1 ∧ 0 ≤ (bottomOf tsub ls).2 := by
+  induction ls with
+  | nil => exact absurd rfl hne
+  | cons up rest ih =>
+    cases rest with
+    | nil =>
+      have g := hg up (by simp)
+      simp only [bottomOf]
+      exact ⟨g.b0, by linarith [g.bd, g.d0], mul_nonneg g.d0 hts⟩
+    | cons lower rest =>
+      have gu := hg up (by simp)
+      have gl := hg lower (by simp)
+      obtain ⟨h0, h1, h2⟩ := ih (by simp) (fun ly h => hg ly (by simp [h]))
+      have := textbook_step_nonneg lower up _ _ h0 h1 h2 gl.t0 gl.t1 gl.T0 gl.r0 gl.r1 gl.u0 gl.ru gu.b0 gu.d0 gu.bd
+      simp only [bottomOf]
+      exact ⟨this.2.2.2.1, this.2.2.2.2.1, this.2.2.2.2.2⟩
+
+/-- **brightness_nonneg** (`weights_nonneg_nonscattering` of C03): with physical coefficients the closed-form brightness
+    temperature is non-negative for every non-negative set of source temperatures; being linear in them, each of its weights
+    (response to a unit temperature in one source) is therefore non-negative -/
+theorem brightness_nonneg (tsub tsky rAir tauAir : ℝ) (hts : 0 ≤ tsub) (hsky : 0 ≤ tsky) (hra : 0 ≤ rAir) (hta : 0 ≤ tauAir)
+    (top : SLayer ℝ) (rest : List (SLayer ℝ)) (hg : ∀ ly ∈ top :: rest, Good ly) :
+    0 ≤ brightness tsub tsky rAir tauAir (top :: rest) := by
+  obtain ⟨h0, h1, h2⟩ := bottomOf_nonneg tsub hts (top :: rest) (by simp) hg
+  have g := hg top (by simp)
+  simp only [brightness, throughLayer]
+  set G := (bottomOf tsub (top :: rest)).1
+  set S := (bottomOf tsub (top :: rest)).2
+  have hg' : 0 ≤ top.t * top.t * G := by have := g.t0; positivity
+  have htt : top.t * top.t ≤ 1 := by nlinarith [g.t0, g.t1]
+  have hg1 : top.t * top.t * G ≤ 1 := by nlinarith [mul_nonneg g.t0 g.t0]
+  have hs' : 0 ≤ top.temp * (1 - top.t) * (1 + top.t * G) + top.t * S := by
+    have : 0 ≤ 1 - top.t := by linarith [g.t1]
+    have := g.t0; have := g.T0
+    positivity
+  have hden : 0 < 1 - top.rTop * (top.t * top.t * G) := by nlinarith [g.r0, g.r1]
+  have := g.u0
+  positivity
+
 end Smrt.Props.C02
